@@ -40,7 +40,15 @@ CHOL0_FNS = {"solve", "solve_lhs", "inv_quad", "logdet", "inv_quad_logdet", "roo
 APPROX_FNS_CHOL0 = {"root_decomposition", "root_inv_decomposition"}
 CIQ_FNS = {"sqrt_inv_matmul", "sqrt_inv_matmul_lhs"}
 RHS_FNS = {"matmul", "rmatmul", "solve", "solve_lhs", "inv_quad", "inv_quad_logdet", "sqrt_inv_matmul",
-           "sqrt_inv_matmul_lhs"}
+           "sqrt_inv_matmul_lhs", "iql_split", "chol_seq"}
+# entry points with SEVERAL outputs / cache by-products, differentiated through each output separately and in combination
+# (kind selects the outputs), incl. outputs obtained later from the cache on the same object
+MULTI_FNS = {"root_inv_root", "diag_lanczos", "diag_symeig", "diag_default", "eigh", "svd", "iql_split", "chol_seq"}
+SYM_FNS |= MULTI_FNS
+CHOL0_FNS |= {"diag_default", "iql_split"}
+# Lanczos-based: the forward value is an approximation (compared first; the cell is skipped when it is off)
+LANCZOS_FNS = {"root_inv_root", "diag_lanczos"}
+SPEC_SCALE = 4.0         # matrix function exp(S / SPEC_SCALE): spectra of the grid stay below ~30
 
 
 class Ungenerated(Exception):
@@ -331,6 +339,8 @@ def gen_fn_args(rng, fn, kind, shape):
         a["reduce"] = kind != "noreduce"
     elif fn == "inv_quad_logdet":
         a["rhs"] = ob.rand_t(rng, rshape(kind, n, 2))
+    elif fn in ("iql_split", "chol_seq"):
+        a["rhs"] = ob.rand_t(rng, rshape("batched", n, 2))
     elif fn == "getitem":
         r = max(1, m - 1)
         if kind == "row_slice":
@@ -434,6 +444,8 @@ def apply_fn(fn, A, a, is_op, n=None):
             L = A.pivoted_cholesky(rank=A.size(-1), error_tol=0.0)
             return [L @ L.mT]
         return [A]
+    if fn in MULTI_FNS:
+        return apply_multi(fn, A, a, is_op)
     if fn == "sqrt_inv_matmul":
         if is_op:
             return [A.sqrt_inv_matmul(rhs)]
@@ -448,6 +460,75 @@ def apply_fn(fn, A, a, is_op, n=None):
         q = (lhs * torch.linalg.solve(A, lhs.mT).mT).sum(-1)
         return [r, q]
     raise ValueError("unknown fn %s" % fn)
+
+
+def spec_outs(S, Q, kind):
+    """scalarisable outputs of an eigendecomposition that are well defined for distinct eigenvalues (independent of the
+    order and of the signs the routine returns) and are NOT spectral invariants once contracted with random weights:
+    matfun: Q exp(S/c) Q^T   evecs: Q diag(1/n..1) Q^T with eigenvalues sorted (eigenvectors only)   evals: sorted S"""
+    S, idx = torch.sort(S, dim=-1)
+    Q = torch.gather(Q, -1, idx.unsqueeze(-2).expand_as(Q))
+    n = S.shape[-1]
+    c = torch.arange(1, n + 1, dtype=S.dtype) / n
+    mat = Q @ torch.diag_embed(torch.exp(S / SPEC_SCALE)) @ Q.mT
+    evo = Q @ torch.diag_embed(c.expand_as(S)) @ Q.mT
+    return {"matfun": [mat], "evecs_only": [evo], "evals_only": [S], "all": [mat, evo, S]}[kind]
+
+
+def apply_multi(fn, A, a, is_op):
+    kind, rhs = a.get("kind"), a.get("_rhs")
+    if fn == "root_inv_root":
+        # both / root_only / inv_only: root_inv_decomposition(lanczos) also fills the root cache, root_decomposition() then
+        # returns that cached root;  rev_*: the two decompositions as two separate calls, root first
+        if is_op:
+            if kind.startswith("rev"):
+                R = A.root_decomposition(method="lanczos")
+                Ri = A.root_inv_decomposition(method="lanczos")
+            else:
+                Ri = A.root_inv_decomposition(method="lanczos")
+                R = A.root_decomposition()
+            outs = {"inv": Ri.to_dense(), "root": R.to_dense()}
+        else:
+            outs = {"inv": torch.linalg.inv(A), "root": A}
+        sel = {"both": ["inv", "root"], "rev_both": ["inv", "root"], "root_only": ["root"], "inv_only": ["inv"]}[kind]
+        return [outs[k] for k in sel]
+    if fn in ("diag_lanczos", "diag_symeig", "diag_default", "eigh"):
+        if is_op:
+            if fn == "eigh":
+                S, Q = A.eigh()
+            else:
+                S, Q = A.diagonalization(method={"diag_lanczos": "lanczos", "diag_symeig": "symeig", "diag_default": None}[fn])
+            Q = _dn(Q)
+        else:
+            S, Q = torch.linalg.eigh(A)
+        return spec_outs(S, Q, kind)
+    if fn == "svd":
+        if is_op:
+            U, S, V = A.svd()
+            U, V = _dn(U), _dn(V)
+        else:
+            U, S, Vh = torch.linalg.svd(A)
+            V = Vh.mT
+        S2, idx = torch.sort(S, dim=-1)
+        U = torch.gather(U, -1, idx.unsqueeze(-2).expand_as(U))
+        V = torch.gather(V, -1, idx.unsqueeze(-2).expand_as(V))
+        mat = U @ torch.diag_embed(torch.exp(S2 / SPEC_SCALE)) @ V.mT
+        return {"matfun": [mat], "evals_only": [S2], "all": [mat, S2]}[kind]
+    if fn == "iql_split":
+        if is_op:
+            iq, ld = A.inv_quad_logdet(inv_quad_rhs=rhs, logdet=True)
+        else:
+            iq, ld = (rhs * torch.linalg.solve(A, rhs)).sum((-2, -1)), torch.logdet(A)
+        return {"iq_only": [iq], "ld_only": [ld]}[kind]
+    if fn == "chol_seq":
+        # cholesky() fills the cache that logdet / solve then use: one graph through the cached factor
+        if is_op:
+            Lc = A.cholesky().to_dense()
+            ld, sv = A.logdet(), A.solve(rhs)
+        else:
+            Lc, ld, sv = torch.linalg.cholesky(A), torch.logdet(A), torch.linalg.solve(A, rhs)
+        return {"all": [Lc, ld, sv], "later_only": [ld, sv], "chol_only": [Lc]}[kind]
+    raise ValueError(fn)
 
 
 # ------------------------------------------------------------------------------------------- settings / randomness
@@ -492,7 +573,7 @@ class DetRandn:
 
 
 @contextlib.contextmanager
-def lo_settings(me, chol0, n):
+def lo_settings(me, chol0, n, spectral=False):
     S = lo().settings
     with contextlib.ExitStack() as st:
         st.enter_context(S.memory_efficient(bool(me)))
@@ -501,6 +582,8 @@ def lo_settings(me, chol0, n):
             if hasattr(S, nm):          # eval_cg_tolerance does not exist in every version of the library
                 st.enter_context(getattr(S, nm)(v))
         st.enter_context(S.max_cg_iterations(200))
+        if spectral and hasattr(S, "tridiagonal_jitter"):
+            st.enter_context(S.tridiagonal_jitter(1e-9))
         if chol0:
             st.enter_context(S.max_cholesky_size(0))
             st.enter_context(S.num_trace_samples(int(n)))
@@ -545,7 +628,20 @@ def exc_str(ex):
     return "%s: %s" % (type(ex).__name__, str(ex).replace("\n", " ")[:300])
 
 
-def tol_of(fn, chol0):
+def tol_of(fn, chol0, gap=None):
+    if fn in ("diag_lanczos", "diag_symeig", "diag_default", "eigh", "svd"):
+        # eigenvector derivatives carry 1/(s_i - s_j): errors of the eigenvalues are amplified by 1/gap (gap relative to the
+        # largest eigenvalue).  symeig / eigh: both sides are LAPACK eigh.  Lanczos (harness: tridiagonal_jitter 1e-9):
+        # measured <= 2.4e-8/gap on the pinned tree (its jitter touches all entries of T), <= 3e-9/gap on the repaired one;
+        # in addition Diagonalization.backward uses 1/(s_i - s_j + 1e-10), whose symmetric part -2e-10/(s_i - s_j)^2 does
+        # not cancel for losses through Q g(S) Q^T: measured 7e-11/gap^2.  Dropping a coupling term altogether is O(1).
+        g = max(float(gap or 1e-2), 1e-6)
+        lanczos_like = fn == "diag_lanczos" or (fn == "diag_default" and chol0)
+        if lanczos_like:
+            return max(TOL_DIRECT, 4e-8 / g, 4e-10 / g ** 2)
+        return max(TOL_DIRECT, 1e-11 / g)
+    if fn == "root_inv_root":
+        return TOL_CG
     if fn in CIQ_FNS:
         return TOL_CIQ
     if chol0 and fn in CHOL0_FNS:
@@ -568,7 +664,7 @@ def run_side(leaves, fn, a, is_op, me, chol0, seed, weights=None):
         if a.get(k) is not None and a[k].requires_grad:
             inputs.append(a[k])
     n = int(leaves.e_shape[-1])
-    ctx_set = lo_settings(me, chol0, n) if is_op else contextlib.nullcontext()
+    ctx_set = lo_settings(me, chol0, n, spectral=fn in MULTI_FNS) if is_op else contextlib.nullcontext()
     ctx_rnd = DetRandn(seed, probe_n=n if chol0 else None).patched() if is_op else contextlib.nullcontext()
     ctx_set.__enter__()          # harness-side failures here must propagate (never classified as operator errors)
     ctx_rnd.__enter__()
@@ -674,7 +770,7 @@ def compare(case):
     (status ok/fail/skip, fail kind, offending input, errors).  The expression must already be `reshare`d."""
     e = case["expr"]
     fn, me, chol0, seed = case["fn"], bool(case["me"]), bool(case["chol0"]), int(case["seed"])
-    tol = tol_of(fn, chol0)
+    tol = tol_of(fn, chol0, case["fn_args"].get("gap"))
     out = {"status": "ok", "fail": None, "tol": tol}
     leaves = Leaves(e, case.get("rg_mask"))
     a = prepare_args(case["fn_args"], case.get("rhs_rg", True))
@@ -724,7 +820,7 @@ def compare(case):
         out.update(status="fail", fail=kind, phase=opr["phase"], error=m, dense_raises=False, where=opr.get("where"),
                    offender={"owner": "output" if opr["exc_type"] == "OutputShape" else "?"})
         return out, leaves, opr, ref
-    if (chol0 and fn in APPROX_FNS_CHOL0 or fn in CIQ_FNS) and not fwd:
+    if (chol0 and fn in APPROX_FNS_CHOL0 or fn in CIQ_FNS or fn in LANCZOS_FNS or (chol0 and fn == "diag_default")) and not fwd:
         out.update(status="skip", reason="approximate method (%s) did not reproduce the forward value "
                    "(rel err %.3g): gradient of the approximation is not comparable" % (fn, out["forward_err"]))
         return out, leaves, opr, ref
@@ -1045,6 +1141,9 @@ def _fn_src(fn, a):
         return ["op.cholesky().to_dense()"], ["torch.linalg.cholesky(D)"]
     if fn == "pivoted_cholesky":
         return ["(lambda Lp: Lp @ Lp.mT)(op.pivoted_cholesky(rank=op.size(-1), error_tol=0.0))"], ["D"]
+    if fn in MULTI_FNS:
+        k = a.get("kind")
+        return ["*c07_multi(%r, op, %r, True, rhs)" % (fn, k)], ["*c07_multi(%r, D, %r, False, rhs)" % (fn, k)]
     if fn == "sqrt_inv_matmul":
         return ["op.sqrt_inv_matmul(rhs)"], ["(inv_sqrt(D) @ %s)%s" % (R, sq)]
     if fn == "sqrt_inv_matmul_lhs":
@@ -1064,11 +1163,21 @@ def emit(replay):
     if fn in CIQ_FNS:
         em.need("inv_sqrt")
     rhs_rg = replay.get("rhs_rg", True)
+    multi_src = ""
+    if fn in MULTI_FNS:
+        import inspect
+        multi_src = ("SPEC_SCALE = %r\n_dn = lambda x: x.to_dense() if not torch.is_tensor(x) else x\n" % SPEC_SCALE
+                     + inspect.getsource(spec_outs) + "\n" + inspect.getsource(apply_multi)
+                     + "\ndef c07_multi(fn, A, kind, is_op, rhs=None):\n    return apply_multi(fn, A, {'kind': kind, '_rhs': rhs}, is_op)\n")
     out = ["import torch", "import linear_operator", "from linear_operator import settings",
            "from linear_operator.operators import *   # noqa", "from linear_operator.operators import LinearOperator, to_dense",
            "torch.set_num_threads(1)", ""]
     for h in em.helpers:
         out.append(_HELPERS[h])
+    if multi_src:
+        out.append(multi_src)
+        if a.get("rhs") is None:
+            out.append("rhs = None")
     out += em.lines
     inputs = [v for v, rg in em.leaf_vars if rg]
     for nm in ("rhs", "lhs"):
